@@ -166,9 +166,14 @@ def truthy(is_expr, want_true=True):
     return classify
 
 
-def reaches_unchecked(fn, starts, targets, pass_edges):
+def reaches_unchecked(fn, starts, targets, pass_edges, barriers=()):
     """Witness path from one of `starts` (element ids; 'entry' = function entry) to an element of `targets` that uses
-    no pass edge, or None.  targets: node ids (mapped to their CFG elements)."""
+    no pass edge (and crosses no barrier element), or None.  targets: node ids (mapped to their CFG elements)."""
+    bar = set()
+    for t in barriers:
+        e = t if t in _elemset(fn) else elem_of(fn, t)
+        if e is not None:
+            bar.add(e)
     tg = set()
     for t in targets:
         e = elem_of(fn, t) if t not in _elemset(fn) else t
@@ -181,12 +186,12 @@ def reaches_unchecked(fn, starts, targets, pass_edges):
         return (b, idx) not in pass_edges
     for s in starts:
         if s == 'entry':
-            w = path_search(fn, fn.entry, lambda e: e in tg, lambda e: False, edge_ok, from_block_start=True)
+            w = path_search(fn, fn.entry, lambda e: e in tg, lambda e: e in bar, edge_ok, from_block_start=True)
         else:
             se = s if s in _elemset(fn) else elem_of(fn, s)
             if se is None:
                 continue
-            w = path_search(fn, se, lambda e: e in tg, lambda e: False, edge_ok)
+            w = path_search(fn, se, lambda e: e in tg, lambda e: e in bar, edge_ok)
         if w is not None:
             return [s if s == 'entry' else ('from', s)] + w
     return None
@@ -283,3 +288,277 @@ def sig(fn):
         t = t.replace('std::size_t', 'size_t').replace('unsigned long', 'size_t')
         return t.replace(' ', '')
     return '(%s)' % ','.join(short(p['tC']) for p in fn.params)
+
+
+# ------------------------------------------------------------------------------------------------ cursor dataflow
+# A *cursor* is a `const char*` local / parameter (kind 'p'), or the pointer behind a `const char**` parameter (kind 'pp',
+# the expression `*dataptr`).  Must-dataflow over three levels per cursor:
+#   2 CHECKED    compared unequal to / below an end pointer since its last advance (or obtained from a source that returns a
+#                dereferenceable pointer)
+#   1 ENTRY      still holds the value the caller passed in (a dereference here is a precondition on the caller)
+#   0 UNCHECKED  advanced / assigned since the last comparison
+# A dereference needs level 2; at level 1 it is recorded as an entry precondition of the function (callers are then
+# checked at the call site); at level 0 it is a violation.
+
+UNCHECKED, ENTRY, CHECKED = 0, 1, 2
+_PTR_T = ('const char *', 'const char *const', 'char *', 'const unsigned char *', 'const unsigned char *const')
+_PPTR_T = ('const char **', 'const char **const', 'const char *const *')
+
+
+class CursorFlow:
+    def __init__(self, fn, summaries):
+        self.fn = fn
+        self.S = summaries          # usr -> {'pre': set(param idx), 'ret': bool}
+        self.cursors = {}           # decl id -> ('p'|'pp', name, param index or None)
+        for i, p in enumerate(fn.params):
+            if p['tC'] in _PTR_T:
+                if p['tC'].endswith('*const') or not definitions(fn, p['d']):
+                    continue        # a pointer parameter that never moves is an end marker, not a cursor
+                self.cursors[p['d']] = ('p', p['name'], i)
+            elif p['tC'] in _PPTR_T:
+                self.cursors[p['d']] = ('pp', p['name'], i)
+        for n in fn.all_nodes():
+            if n.get('k') == 'decl':
+                for v in n['vars']:
+                    if v['tC'] in _PTR_T:
+                        self.cursors[v['d']] = ('p', v['name'], None)
+        self.pre = set()
+        self.events = []            # (cursor decl, node id, level at the dereference, what)
+        self.ret_ok = None
+        self._pm = fn.parent_map()
+
+    # -- expression classification
+    def cursor_of(self, nid):
+        """decl id of the cursor the expression denotes as an lvalue / value (`data`, `*dataptr`), else None."""
+        n = self.fn.sn(nid)
+        if n is None:
+            return None
+        if n.get('k') == 'var' and n.get('d') in self.cursors and self.cursors[n['d']][0] == 'p':
+            return n['d']
+        if n.get('k') == 'unop' and n.get('op') == '*':
+            s = self.fn.sn(n['sub'])
+            if s is not None and s.get('k') == 'var' and s.get('d') in self.cursors and self.cursors[s['d']][0] == 'pp':
+                return s['d']
+        return None
+
+    def pointer_to_cursor(self, nid):
+        """decl id when the expression is the address of a cursor (`&data`, or a `const char**` parameter itself)."""
+        n = self.fn.sn(nid)
+        if n is None:
+            return None
+        if n.get('k') == 'unop' and n.get('op') == '&':
+            c = self.cursor_of(n['sub'])
+            if c is not None and self.cursors[c][0] == 'p':
+                return c
+        if n.get('k') == 'var' and n.get('d') in self.cursors and self.cursors[n['d']][0] == 'pp':
+            return n['d']
+        return None
+
+    def _incdec_of(self, nid):
+        n = self.fn.sn(nid)
+        if n is not None and n.get('k') == 'unop' and n.get('op') in ('++', '--'):
+            c = self.cursor_of(n['sub'])
+            if c is not None:
+                return c, bool(n.get('postfix'))
+        return None
+
+    def level_of(self, nid, st):
+        fn = self.fn
+        c = self.cursor_of(nid)
+        if c is not None:
+            return st.get(c, UNCHECKED)
+        n = fn.sn(nid)
+        if n is None:
+            return UNCHECKED
+        if n.get('k') == 'lit' and 'str' in n:
+            return CHECKED
+        if n.get('k') == 'call' and n.get('u') in self.S and self.S[n['u']].get('ret'):
+            return CHECKED
+        return UNCHECKED
+
+    # -- transfer
+    def _deref(self, c, nid, st, what):
+        lvl = st.get(c, UNCHECKED)
+        self.events.append((c, nid, lvl, what))
+        if lvl == ENTRY and self.cursors[c][2] is not None:
+            self.pre.add(self.cursors[c][2])
+
+    def transfer(self, st, n, record):
+        fn = self.fn
+        k = n.get('k')
+        st2 = st
+        if k == 'unop' and n.get('op') == '*':
+            c = self.cursor_of(n['sub'])
+            if c is not None:
+                if record:
+                    self._deref(c, n['id'], st, 'dereference')
+                return st
+            idc = self._incdec_of(n['sub'])
+            if idc is not None:
+                c, postfix = idc
+                if postfix:
+                    if record:
+                        self._deref(c, n['id'], st, 'dereference')
+                    st2 = dict(st)
+                    st2[c] = UNCHECKED
+                    return st2
+                if record:
+                    self._deref(c, n['id'], st, 'dereference')
+                return st
+        elif k == 'index':
+            c = self.cursor_of(n['base'])
+            if c is not None and record:
+                if fn.const_value(n['idx']) == 0:
+                    self._deref(c, n['id'], st, 'dereference')
+                else:
+                    self.events.append((c, n['id'], UNCHECKED, 'indexed read at a non-zero offset'))
+            return st
+        elif k == 'unop' and n.get('op') in ('++', '--'):
+            c = self.cursor_of(n['sub'])
+            if c is not None:
+                if n.get('postfix'):
+                    p = self._pm.get(n['id'])
+                    hops = 0
+                    while p is not None and fn.nodes[p].get('k') in ('wrap', 'icast') and hops < 4:
+                        p = self._pm.get(p)
+                        hops += 1
+                    if p is not None and fn.nodes[p].get('k') == 'unop' and fn.nodes[p].get('op') == '*':
+                        return st       # `*c++`: handled at the dereference (old value is read, then the cursor moves)
+                st2 = dict(st)
+                st2[c] = UNCHECKED
+                return st2
+        elif k == 'assign':
+            c = self.cursor_of(n['lhs'])
+            if c is not None:
+                st2 = dict(st)
+                st2[c] = self.level_of(n['rhs'], st) if n.get('op') == '=' else UNCHECKED
+                if st2[c] == ENTRY:
+                    st2[c] = UNCHECKED      # a copy of a caller value is not the parameter itself
+                return st2
+        elif k == 'decl':
+            for v in n['vars']:
+                if v['d'] in self.cursors and isinstance(v.get('init'), int):
+                    st2 = dict(st2)
+                    lv = self.level_of(v['init'], st)
+                    st2[v['d']] = UNCHECKED if lv == ENTRY else lv
+            return st2
+        elif k in ('call', 'construct'):
+            summ = self.S.get(n.get('u')) if n.get('u') else None
+            changed = None
+            for i, a in enumerate(n.get('args', []) or []):
+                if a is None:
+                    continue
+                pc = self.pointer_to_cursor(a)
+                if pc is not None:
+                    if summ is not None and i in summ.get('pre', ()):
+                        if record:
+                            self._deref(pc, n['id'], st, 'call of %s (dereferences it before any test)' % n.get('q'))
+                    changed = changed or dict(st)
+                    changed[pc] = UNCHECKED
+                    continue
+                c = self.cursor_of(a)
+                if c is not None and summ is not None and i in summ.get('pre', ()):
+                    if record:
+                        self._deref(c, n['id'], st, 'call of %s (dereferences it before any test)' % n.get('q'))
+            if changed is not None:
+                return changed
+        return st
+
+    def edge_fact(self, blk):
+        """(cursor decl, successor index on which it is CHECKED) for a block whose condition compares a cursor with another
+        pointer, else None."""
+        fn = self.fn
+        if 'cond' not in blk or len(blk['succs']) != 2 or blk.get('termcls') == 'SwitchStmt':
+            return None
+        c = effective_cond(fn, blk)
+        if c is None:
+            return None
+        inner, pol = strip_not(fn, c)
+        p = cmp_parts(fn, inner)
+        if p is None:
+            return None
+        op, l, r = p
+        cl, cr = self.cursor_of(l), self.cursor_of(r)
+        if cl is not None and cr is None:
+            cur, other = cl, r
+        elif cr is not None and cl is None:
+            cur, other, op = cr, l, _FLIP[op]
+        else:
+            return None
+        on = fn.sn(other)
+        if on is None or not (on.get('t', '').endswith('*') or on.get('t', '').endswith('*const')):
+            return None
+        if fn.const_value(other) is not None:
+            return None     # comparison with nullptr says nothing about the end of the data
+        if op == '!=' or op == '<':
+            good_true = True
+        elif op == '==' or op == '>=':
+            good_true = False
+        else:
+            return None
+        if not pol:
+            good_true = not good_true
+        return cur, (0 if good_true else 1)
+
+    def run(self):
+        fn = self.fn
+        init = {}
+        for d, (kind, name, pidx) in self.cursors.items():
+            init[d] = ENTRY if pidx is not None else UNCHECKED
+        IN = {fn.entry: init}
+        work = [fn.entry]
+        for b in fn.catch_entry_blocks():
+            IN[b] = {d: UNCHECKED for d in self.cursors}
+            work.append(b)
+        guard = 0
+        while work and guard < 20000:
+            guard += 1
+            b = work.pop()
+            st = IN[b]
+            blk = fn.blocks[b]
+            for e in blk['elems']:
+                st = self.transfer(st, fn.nodes[e], False)
+            ef = self.edge_fact(blk)
+            for idx, s in enumerate(blk['succs']):
+                if s is None:
+                    continue
+                out = st
+                if ef is not None and ef[1] == idx:
+                    out = dict(st)
+                    out[ef[0]] = CHECKED
+                old = IN.get(s)
+                if old is None:
+                    IN[s] = dict(out)
+                    work.append(s)
+                else:
+                    new = {d: min(old.get(d, UNCHECKED), out.get(d, UNCHECKED)) for d in self.cursors}
+                    if new != old:
+                        IN[s] = new
+                        work.append(s)
+        # recording pass
+        self.events = []
+        self.pre = set()
+        rets_ok = True
+        n_ret = 0
+        for b, st in IN.items():
+            blk = fn.blocks[b]
+            for e in blk['elems']:
+                n = fn.nodes[e]
+                if n.get('k') == 'return' and 'sub' in n:
+                    n_ret += 1
+                    if not self._ret_checked(n['sub'], st):
+                        rets_ok = False
+                st = self.transfer(st, n, True)
+        self.ret_ok = rets_ok and n_ret > 0
+        return self
+
+    def _ret_checked(self, nid, st):
+        fn = self.fn
+        if self.level_of(nid, st) == CHECKED:
+            return True
+        n = fn.sn(nid)
+        if n is not None and n.get('k') == 'unop' and n.get('op') == '&':
+            s = fn.sn(n['sub'])
+            if s is not None and s.get('k') == 'call' and s.get('op') == '[]' and s.get('recv') is not None and fn.is_this_member(s['recv']):
+                return True     # address of an element of an owned container member
+        return False
